@@ -1295,6 +1295,9 @@ class Engine:
         nvals = dict(args)
         for gname, gty in (getattr(con, "ghost_locals", None) or {}).items():
             nvals[gname] = fresh_val(f"{gname}.{con.short}", gty)
+            # visible to the caller's own specification as `<ghost>@<callee>` (a witness it can name instead of
+            # asking the solver to find one)
+            s.frames[s.cur].vars[f"{gname}@{con.short}"] = nvals[gname]
         n = NS(s, nvals)
         if con.ensures is not None:
             for label, f in conj(con.ensures(o, n, view(s, res) if res.ty != NONE else None)):
